@@ -192,4 +192,42 @@ theorem stringbuf_accumulates (init : List Char) (log : List BufOp) :
 
 example : bufRun ['x'] [.pushChar 'é', .pushString ['y', 'z']] = ['x', 'é', 'y', 'z'] := by decide
 
+/-- Histories with reads interleaved (handles are aliases of one buffer):
+there are exactly as many results as `as_string` calls, and the `as_string`
+that follows ANY prefix `pre` of a history returns the initial contents
+followed by everything `pre` pushed — whatever reads happened before it, and
+whichever kind of push came last (no read is stale, no read disturbs the
+buffer). -/
+theorem stringbuf_every_read_accumulates (init : List Char) (pre post : List BufEv) :
+    (bufTrace init (pre ++ .read :: post)).length = countReads pre + 1 + countReads post ∧
+    (bufTrace init (pre ++ .read :: post))[countReads pre]? = some (init ++ pushedText pre) := by
+  refine ⟨?_, Strings.bufTrace_read init pre post⟩
+  rw [Strings.bufTrace_length]
+  induction pre with
+  | nil => simp [countReads]; omega
+  | cons e pre ih => cases e <;> simp [countReads, ih] <;> omega
+
+/-- non-vacuity, on the history shape read · push_char · read · push_string · read -/
+example : bufTrace ['x'] [.read, .op (.pushChar ','), .read, .op (.pushString ['y']), .read] =
+    [['x'], ['x', ','], ['x', ',', 'y']] := by decide
+
+/-- a read changes nothing: dropping all earlier reads from a history leaves a later read's value -/
+theorem stringbuf_read_is_pure (init : List Char) (pre post : List BufEv) :
+    (bufTrace init (pre ++ .read :: post))[countReads pre]? =
+      some (bufRun init (pre.filterMap fun | .op o => some o | .read => none)) := by
+  rw [Strings.bufTrace_read, stringbuf_accumulates]
+  congr 2
+  induction pre with
+  | nil => rfl
+  | cons e pre ih => cases e <;> simp [pushedText, ih]
+
+example : (bufTrace [] [.op (.pushChar 'a'), .read, .read])[1]? = some ['a'] := by decide
+
+/-- the single-read runs of `stringbuf_accumulates` are the histories with one final read -/
+theorem stringbuf_trace_final (init : List Char) (log : List BufOp) :
+    bufTrace init (log.map .op ++ [.read]) = [bufRun init log] :=
+  Strings.bufTrace_ops_read init log
+
+example : bufTrace ['x'] ([BufOp.pushChar 'y'].map .op ++ [.read]) = [['x', 'y']] := by decide
+
 end RotoV.C17
